@@ -199,6 +199,18 @@ func vpValueFor(k string, illTyped bool) any {
 		if illTyped {
 			return "not-a-plugin-list"
 		}
+		switch vpInt(0, 5) { // the value of a kind key never changes the decision
+		case 1:
+			return []any{"p#v1", "p#v1"}
+		case 2:
+			return []any{"p#v1", ordered.MapFromItems(ordered.TupleSA{Key: "github.com/buildkite-plugins/p-buildkite-plugin#v1", Value: nil})}
+		case 3:
+			return []any{}
+		case 4:
+			return nil
+		case 5:
+			return ordered.MapFromItems(ordered.TupleSA{Key: "p#v1", Value: nil}, ordered.TupleSA{Key: "q", Value: ordered.MapFromItems(ordered.TupleSA{Key: "a", Value: 1})})
+		}
 		return []any{"p#v1"}
 	case "group":
 		return "g"
